@@ -269,6 +269,12 @@ func cmdCheck(args []string) int {
 			machinery = append(machinery, fmt.Sprintf("finding %s is recorded as fixed but the contract of %s still carves it out", id, findingFunc[id]))
 			continue
 		}
+		if kf.Property != *prop {
+			// the finding belongs to another property (and is reported by that property's check); here the
+			// carve-out is just an assumption under which the obligations of this property were proved
+			assumptions[fmt.Sprintf("obligations of %s proved outside known finding %s (reported under %s): %s", findingFunc[id], id, kf.Property, kf.CarveOut)] = true
+			continue
+		}
 		witnessToRun = append(witnessToRun, kf)
 	}
 	// findings recorded directly against this property without a carve-out clause (e.g. call-site findings)
